@@ -56,7 +56,20 @@ def run(tier, out):
         per_model = 6 if tier == "quick" else 10 ** 6
         events, tid = [], 0
         covered = {}
-        for seed in range(base, base + n_models):
+        def storage_users(model):
+            reach, by_sto = efx.reachable(model), {}
+            for j in efx.names_of(model, "Job"):
+                if j in reach:
+                    by_sto.setdefault(model[model[j]["lnk"]["server"]]["lnk"]["storage"], []).append(j)
+            return {s: js for s, js in by_sto.items() if len(js) >= 2}
+
+        plan = [(seed, False) for seed in range(base, base + n_models)]
+        for seed in range(base + 1000, base + 1400):       # plus systems in which two jobs share a storage
+            if len(plan) >= n_models + (2 if tier == "quick" else 20):
+                break
+            if storage_users(gen.random_model(random.Random(seed))):
+                plan.append((seed, True))
+        for seed, with_delete in plan:
             rng = random.Random(seed)
             model = gen.random_model(rng)
             # make the storage duration matter
@@ -64,6 +77,18 @@ def run(tier, out):
                 model[s]["inp"]["data_storage_duration"] = [rng.choice([2, 3]), "hour"]
             for up in efx.names_of(model, "UsagePattern"):
                 model[up]["opt"]["starts"] = (model[up]["opt"]["starts"] * 3)[:9]
+            forced = []
+            if with_delete:
+                # a storage shared by a job that stores and a job that deletes data (each amount has its own unit)
+                by_sto = storage_users(model)
+                shared = sorted(by_sto)
+                if shared:
+                    sto = rng.choice(shared)
+                    ja, jb = by_sto[sto][0], by_sto[sto][1]
+                    model[ja]["inp"]["data_stored"] = [200, "kB"]
+                    model[jb]["inp"]["data_stored"] = [-50, "kB"]
+                    model[sto]["inp"]["base_storage_need"] = [1, "TB"]
+                    forced = [(ja, "data_stored"), (jb, "data_stored")]
             try:
                 ref_live = efx.build(ns, model)
             except Exception:
@@ -81,6 +106,7 @@ def run(tier, out):
                 if k not in covered and k not in seen_here:
                     chosen.append((n, a))
                     seen_here.add(k)
+            chosen = forced + [x for x in chosen if x not in forced]
             chosen += [x for x in inputs if x not in chosen][: max(0, per_model - len(chosen))]
             for n, a in chosen:
                 mv = model[n]["inp"][a]
